@@ -28,8 +28,8 @@ Definition coll_ok (k : coll) : Prop :=
   | CMu u => fu_ok true u
   | CFob q => sm_wf (tasks (fo_inner q))
   | CFo q => fu_ok false (fu_inner q)
-  | CAd a => sm_wf (tasks (q_fub (ad_q a))) /\ q_len (ad_q a) <= q_cap (ad_q a)
-  | CFec a => sm_wf (tasks (fe_q a))
+  | CAd a => sm_wf (tasks (q_fub (ad_q a))) /\ q_len (ad_q a) <= q_cap (ad_q a) /\ up_live (ad_up a)
+  | CFec a => sm_wf (tasks (fe_q a)) /\ up_live (fe_up a)
   | CJoin j => sm_wf (tasks (j_q j))
   | _ => True
   end.
@@ -138,21 +138,21 @@ Proof.
       destruct H as (A & B). split; auto.
   - (* BU *)
     specialize (Hfub (p_cap p)). destruct (fub_new (p_cap p) w) as [f w1].
-    destruct Hfub as (A & B & C). split; simpl; auto. split; auto. unfold fub_len in *; lia.
+    destruct Hfub as (A & B & C). split; simpl; auto. splits; auto. unfold fub_len in *; lia.
   - (* BO *)
     specialize (Hfob (p_cap p) 0%Z).
     destruct (fob_new P (p_cap p) 0%Z w) as [[q|] w1]; [|contradiction].
-    destruct Hfob as (A & B & C). split; simpl; auto. split; auto. lia.
+    destruct Hfob as (A & B & C). split; simpl; auto. splits; auto. lia.
   - (* TBU *)
     specialize (Hfub (p_cap p)). destruct (fub_new (p_cap p) w) as [f w1].
-    destruct Hfub as (A & B & C). split; simpl; auto. split; auto. unfold fub_len in *; lia.
+    destruct Hfub as (A & B & C). split; simpl; auto. splits; auto. unfold fub_len in *; lia.
   - (* TBO *)
     specialize (Hfob (p_cap p) 0%Z).
     destruct (fob_new P (p_cap p) 0%Z w) as [[q|] w1]; [|contradiction].
-    destruct Hfob as (A & B & C). split; simpl; auto. split; auto. lia.
+    destruct Hfob as (A & B & C). split; simpl; auto. splits; auto. lia.
   - (* FEC *)
     specialize (Hfub (p_cap p)). destruct (fub_new (p_cap p) w) as [f w1].
-    destruct Hfub as (A & B & C). split; auto.
+    destruct Hfub as (A & B & C). split; simpl; auto.
   - (* JA *)
     pose proof (@join_new_spec (cnt []) false (mk_children inits) w Hw) as H.
     destruct (join_new false (mk_children inits) w) as [j w1]. destruct H as (A & B & _).
@@ -253,13 +253,14 @@ Proof.
   - pose proof (@fo_poll_next_spec P q t w Hw Hok) as H.
     destruct (fo_poll_next P q t w) as [[q' sp] w1]. destruct H as (A & B & _).
     split; simpl; auto. apply winv_emit_ret; auto.
-  - destruct Hok as [Hwf Hle].
-    pose proof (@adapter_poll_spec P _ a t w Hw (conj (fub_ok_single _ Hwf) Hle)) as H.
-    destruct (adapter_poll P a t w) as [[a' r] w1]. destruct H as (A & [B1 B2] & C & _).
-    split; simpl; [|split; [apply B1|auto]]. rewrite C. apply winv_emit_ret; auto.
-  - pose proof (@fec_poll_spec P _ a t w Hw (fub_ok_single _ Hok)) as H.
-    destruct (fec_poll P a t w) as [[a' r] w1]. destruct H as (A & B & C & _).
-    split; simpl; [|apply B]. rewrite C. apply winv_emit_ret; auto.
+  - destruct Hok as (Hwf & Hle & Hul).
+    pose proof (@adapter_poll_spec P _ a t w Hw (conj (fub_ok_single _ Hwf) (conj Hle Hul))) as H.
+    destruct (adapter_poll P a t w) as [[a' r] w1]. destruct H as (A & (B1 & B2 & B3) & C & _).
+    split; simpl; [|splits; [apply B1|auto|auto]]. rewrite C. apply winv_emit_ret; auto.
+  - destruct Hok as [Hwf Hul].
+    pose proof (@fec_poll_spec P _ a t w Hw (fub_ok_single _ Hwf) Hul) as H.
+    destruct (fec_poll P a t w) as [[a' r] w1]. destruct H as (A & B & C & _ & U).
+    split; simpl; [|split; [apply B|auto]]. rewrite C. apply winv_emit_ret; auto.
   - pose proof (@join_poll_spec P _ j t w Hw (fub_ok_single _ Hok)) as H.
     destruct (join_poll P j t w) as [[j' r] w1]. destruct H as (A & B & C & _).
     split; simpl; [|apply B]. rewrite C. apply winv_emit_ret; auto.
